@@ -2,9 +2,9 @@ package gen
 
 import (
 	"fmt"
-	"strings"
 	"go/parser"
 	"go/token"
+	"strings"
 	"testing"
 
 	"pgregory.net/rapid"
